@@ -1408,6 +1408,11 @@ func c09Run(r *mon.Run) {
 		if !r.Mine(i) {
 			continue
 		}
+		if i%(7*mon.LogicalShards) == r.Shard {
+			// a refusal for the resource bound (only the type guesser takes exponent numbers) right before the next
+			// case: what it leaves behind must not reach that case's first execution
+			text(epGuess, fmt.Sprintf("%d.5e%d", i%9+1, 1000001+i), "number refused for its exponent, ahead of the next case")
+		}
 		text(epSchema|epEnum|epRegex|epDoc|epGuess, lit, "corpus literal, all entry points")
 		for n := r.Pick(1, 2); n > 0; n-- {
 			proj(c09CorpusProject(lit, crng), "corpus schema with drawn types for the names it mentions")
@@ -1429,6 +1434,10 @@ func c09Run(r *mon.Run) {
 					ann := " // {" + strings.Join(rs, ", ") + "}"
 					proj(&project{Root: ex + ann, Types: types}, "rule combinations (mostly invalid) on a root value")
 					proj(&project{Root: "{\n  \"k\": " + ex + ann + "\n}", Types: types}, "rule combinations (mostly invalid) on an object member")
+					if ci%3 == 0 {
+						proj(&project{Root: "{ // {allOf: \"@base\"}\n  \"own\": 1\n}", Types: append(append([]typeDef(nil), types...), typeDef{Name: "@base", Text: "{\n  \"k\": " + ex + ann + "\n}"})},
+							"rule combinations (mostly invalid) on a member inherited through allOf")
+					}
 				}
 				ci++
 			}
